@@ -39,11 +39,11 @@ CLASSES = {
                     "bare": "bool", "nargs": "int"},
     "TokenizerState": {
         "lnum": "int", "parenlev": "int", "continued": "bool", "indents": "seq[int]", "last_line": "str", "line": "str",
-        "pos": "int", "max": "int", "end_progs": "obj:EPStack",
+        "pos": "int", "max": "int", "end_progs": "obj:EPStack", "comment_lnum": "int",
         "__init__": {
             "lnum": lambda ex, st: z3.IntVal(0), "parenlev": lambda ex, st: z3.IntVal(0), "continued": lambda ex, st: z3.BoolVal(False),
             "indents": lambda ex, st: z3.Unit(z3.IntVal(0)), "last_line": lambda ex, st: z3.StringVal(""),
-            "line": lambda ex, st: z3.StringVal(""), "pos": lambda ex, st: z3.IntVal(0), "max": lambda ex, st: z3.IntVal(0),
+            "line": lambda ex, st: z3.StringVal(""), "pos": lambda ex, st: z3.IntVal(0), "max": lambda ex, st: z3.IntVal(0), "comment_lnum": lambda ex, st: z3.IntVal(0),
             "end_progs": lambda ex, st: PyObj("EPStack", {"n": z3.IntVal(0), "top": ex.mk("obj:EndProg", "top0", st)[0]}),
         },
     },
